@@ -73,6 +73,25 @@ func scReassembly(r *Run) {
 				sched[i], sched[j] = sched[j], sched[i]
 			}
 		}
+		// a duplicating network behind a gap: the first frame is late, everything after it arrives again and
+		// again (the reassembly queue parks every copy), then the missing frame comes
+		if n >= 2 && r.Intn(key, 25) == 0 {
+			first := arr{idx: 0, no: uint32(start), data: frames[0]}
+			var flood []arr
+			copies := 700 + r.Intn(key, 700)
+			for k := 0; k < copies; k++ {
+				i := 1 + r.Intn(key, n-1)
+				flood = append(flood, arr{idx: i, no: uint32(start + uint64(i)), data: frames[i]})
+			}
+			if withFin {
+				flood = append(flood, arr{idx: n, no: uint32(start + uint64(n))})
+			}
+			for i := 1; i < n; i++ { // every frame at least once
+				flood = append(flood, arr{idx: i, no: uint32(start + uint64(i)), data: frames[i]})
+			}
+			sched = append(flood, first)
+			r.CountFault("reassembly/duplicate-flood-behind-gap", 1)
+		}
 		for k := 0; k < r.Intn(key, 4); k++ { // frames far outside the window, or long delivered
 			var no uint64
 			switch r.Intn(key, 4) {
@@ -96,7 +115,10 @@ func scReassembly(r *Run) {
 		for step, a := range sched {
 			totalArr++
 			dig = splitmix(dig ^ uint64(a.no)<<8 ^ uint64(a.idx+1))
-			fin, _ := rv.Receive(a.no, a.data, a.idx == n)
+			fin, rerr := rv.Receive(a.no, a.data, a.idx == n)
+			if rerr != nil && a.idx >= 0 {
+				r.Probe("reassembly/own-frame-refused")
+			}
 			if a.idx >= 0 {
 				have[a.idx] = true
 			}
